@@ -400,13 +400,13 @@ func TestVerifC15TXT(t *testing.T) {
 		}
 		rec.Exhaustive("Encode/DecodeRDataTXT: every payload length 0..70000")
 	} else {
-		for n := 0; n <= 2100; n++ {
+		for n := 0; n <= 1100; n++ {
 			lens = append(lens, n)
 		}
 		for n := 65000; n <= 66100; n++ {
 			lens = append(lens, n)
 		}
-		for n := 2100; n <= 70000; n += 17 {
+		for n := 1100; n <= 70000; n += 23 {
 			lens = append(lens, n)
 		}
 		for k := 1; k*255 <= 70000; k++ { // every multiple of the chunk size and its neighbours
@@ -415,7 +415,7 @@ func TestVerifC15TXT(t *testing.T) {
 		for i := 0; i < 300; i++ {
 			lens = append(lens, rng.Intn(70001))
 		}
-		rec.Exhaustive("Encode/DecodeRDataTXT: every payload length 0..2100 and 65000..66100, every k*255±1 and k*256±1 up to 70000 (stride 17 + seeded lengths elsewhere)")
+		rec.Exhaustive("Encode/DecodeRDataTXT: every payload length 0..1100 and 65000..66100, every k*255±1 and k*256±1 up to 70000 (stride 23 + seeded lengths elsewhere)")
 	}
 	for _, n := range lens {
 		if n > 70000 {
@@ -594,7 +594,7 @@ func TestVerifC15Names(t *testing.T) {
 	}
 	rec.Exhaustive("NewName: single labels of every length 0..65; every encoded name length 2..258 with maximal and with 1-byte labels; requester-shaped names with chunk 62/63/64")
 	// (4) seeded partitions around the limits
-	for i, n := 0, kit.Tier(3000, 60000); i < n; i++ {
+	for i, n := 0, kit.Tier(1500, 60000); i < n; i++ {
 		target := 200 + rng.Intn(60)
 		var lens []int
 		sum := 1
@@ -666,7 +666,7 @@ func TestVerifC15Messages(t *testing.T) {
 
 	// (A) generated messages whose names have at most c15SafeLabels (= the pinned decoder limit, 10) labels: pointer chains occur but can never be
 	// longer than the decoder's limit, so every failure here is a defect other than the pointer-limit one
-	nA := kit.Tier(4000, 150000)
+	nA := kit.Tier(2500, 150000)
 	for i := 0; i < nA; i++ {
 		m := c15GenMessage(rng, rec, c15SafeLabels, i%40 == 0)
 		desc := fmt.Sprintf("messageA#%d q=%d an=%d ns=%d ar=%d maxlabels=%d", i, len(m.Question), len(m.Answer), len(m.Authority), len(m.Additional), c15MaxLabels(m))
@@ -704,7 +704,7 @@ func TestVerifC15Messages(t *testing.T) {
 		}
 	}
 	// (C) generated messages with unrestricted nesting (up to 127 labels per name)
-	nC := kit.Tier(1500, 40000)
+	nC := kit.Tier(800, 40000)
 	for i := 0; i < nC; i++ {
 		m := c15GenMessage(rng, rec, 0, false)
 		desc := fmt.Sprintf("messageC#%d q=%d an=%d ns=%d ar=%d maxlabels=%d", i, len(m.Question), len(m.Answer), len(m.Authority), len(m.Additional), c15MaxLabels(m))
@@ -754,7 +754,7 @@ func TestVerifC15Messages(t *testing.T) {
 	}
 
 	// (E) decoder on arbitrary and on mutated bytes: no panic; what it decodes is a value the encoder must invert as well
-	nE := kit.Tier(16000, 600000)
+	nE := kit.Tier(10000, 600000)
 	for i := 0; i < nE; i++ {
 		var b []byte
 		if i%2 == 0 {
